@@ -472,7 +472,7 @@ class Intersection:
                 mat01 = -dsu.inner(dov)
                 mat11 = dov.inner(dov) - ddv.inner(dif)
                 deter = mat00 * mat11 - mat01**2
-                if abs(deter) < 1e-6:
+                if abs(deter) <= 1e-6 * abs(mat00 * mat11):
                     continue
                 newu = u - (mat11 * vect0 - mat01 * vect1) / deter
                 newv = v - (mat00 * vect1 - mat01 * vect0) / deter
